@@ -2491,6 +2491,10 @@ func (self *TextServerProtocol) ProcessLockResultCommand(lockCommand *protocol.L
 		0, 0, 0, 0, 0, 0, 0, 0,
 		0, 0, 0, 0, 0, 0, 0, 0
 
+	if self.closed {
+		return nil
+	}
+
 	if self.freeCommandResult == nil {
 		lockResultCommad := protocol.NewLockResultCommand(lockCommand, result, 0, lcount, lockCommand.Count, lrcount, lockCommand.Rcount, data)
 		self.lockWaiter <- lockResultCommad
